@@ -10,5 +10,6 @@ CONSTANTS
   SerialReg = FALSE
   MaxBatch = 0
   RetryEnds = TRUE
+  MaxAck = 0
   Depth = 52
 CHECK_DEADLOCK FALSE
